@@ -44,4 +44,10 @@ CHECKS = {
         "text": "Every polynomial and spline of the stated grammar, every context-calibrator list of <= 2 over a 6-criterion alphabet with and without a default, and the enumeration/boolean/time derivations (also over calibrated encodings) are loaded from generated documents and queried at every raw value of the field (all knots, both end points, both outside regions); value, kind, raw value and exception class are compared with the reference.",
         "note": "Calibrated results are compared with a tolerance of max(4 ulp, 16 eps x operand magnitude) so that any correct evaluation order passes; NaN/inf raws through calibrators are unspecified.",
     },
+    "C07": {
+        "level": "exploration",
+        "technique": "bounded-exhaustive enumeration of string/binary encoding configurations x bit offsets x content alphabets through load + parse, against a character-level reference decoder",
+        "text": "Every combination of 12 charset/byte-order configurations, six ways of delimiting, fixed/looked-up/referenced lengths with every adjustment, and every content over a 5-symbol alphabet (plus every binary length 0..40 bits) is decoded from generated documents at several bit offsets; value, raw buffer, following sentinel and cursor are compared with the reference.",
+        "note": "Unspecified corners (buffer without terminator, size tag beyond the unpadded buffer, terminator found only in padding bits) are enumerated but not judged; Python codecs are trusted as character tables.",
+    },
 }
